@@ -151,7 +151,7 @@ def oracle(hist, records):
                         stack.append(v)
             return desc
         failed = [t for t, oc in reps if oc == "FAIL"]
-        # known finding F42: a task skipped because an ancestor failed has its pattern dependencies resolved at its (skipped)
+        # former finding F42 (fixed by 501f7e1): a task skipped because an ancestor failed has its pattern dependencies resolved at its (skipped)
         # setup; the re-created DAG no longer connects it to the failed producer, and tasks a generator defines below it afterwards
         # get no mark. Class: the dependant is a generated task, and every path from the failed task to it runs through the
         # pattern dependency of a task that was reported SKIP_PREVIOUS_FAILED before the dependant's generator ran.
@@ -169,7 +169,9 @@ def oracle(hist, records):
                     gen_d = byid[d].get("parent")
                     cut_now = {u for u in cut if gen_d is not None and gen_d in pos and pos[u] < pos[gen_d]}
                     uncut = {e for e in live_edges if not (e in pat_edges and e[1] in cut_now)}
-                    finding = "F42" if gen_d is not None and cut_now and d not in below(f, uncut) else None
+                    # (the class of the former finding F42 — every path runs through the pattern dependency of a task reported
+                    # SKIP_PREVIOUS_FAILED before the dependant's generator ran — is repaired by 501f7e1: a violation like any other)
+                    finding = None
                     bad.append(("failure", f"build {bi}: task {d} depends on task {f}, which FAILED earlier in this build, but it was not skipped "
                                            f"(outcome {outcome[d]}, body {'ran' if d in starts else 'did not run'}); reports {reps}", finding))
         mf = (hist.get("kw") or {}).get("max_failures")
